@@ -88,8 +88,8 @@ def main (args : List String) : IO UInt32 := do
   | ["synthetic"] =>
     lineLoop stdin stdout () SyntheticEng.step
     return 0
-  | "tools" :: rest =>
-    lineLoop stdin stdout (ToolsEng.init (rest.contains "strict")) ToolsEng.step
+  | ["tools"] =>
+    lineLoop stdin stdout ToolsEng.init ToolsEng.step
     return 0
   | _ =>
     IO.eprintln "usage: hwmodel <engine>"
